@@ -157,6 +157,7 @@ def check_windows(ctx):
         n += 1
     on = prog.method("Simulator", "_online_test_bandits_chunks")
     ctx.saw_fn(on)
+    ob = None
     lo = _loops(on.node)
     if lo:
         ob = check_window(ctx, on, lo[0], "online batches", on.node.body[:on.node.body.index(lo[0])])
@@ -179,6 +180,41 @@ def check_windows(ctx):
                                     ("%s + %s" % (ib[0], ob[0]), "%s + %s" % (ib[1], ob[0]))), "R16.1",
                               "online chunks: reported expectations are taken for the rows of the chunk", node, on,
                               "slice [%s:%s] is not the chunk's global window" % b)
+    # R16.7: the evaluation of a batch is told where the batch starts in the test set (the per-row neighbourhood
+    # statistics are looked up at start_index + row), and passes that offset on unchanged
+    pe = prog.method("Simulator", "_get_partial_evaluation")
+    ctx.saw_fn(pe)
+    n7 = 0
+    if "start_index" in pe.params and lo and ob is not None:
+        pos = pe.params.index("start_index") - 1
+        for c in ast.walk(lo[0]):
+            if isinstance(c, ast.Call) and ast.unparse(c.func) == "self._get_partial_evaluation":
+                arg = None
+                for k in c.keywords:
+                    if k.arg == "start_index":
+                        arg = k.value
+                if arg is None and pos < len(c.args):
+                    arg = c.args[pos]
+                n7 += 1
+                ctx.check(arg is not None and ast.unparse(arg) == ob[0], "R16.7",
+                          "online batches are evaluated with the batch window's own start as row offset", c, on,
+                          "start_index argument is `%s`, the batch rows are sliced from `%s`" %
+                          (ast.unparse(arg) if arg is not None else "?", ob[0]))
+        ev_fn = prog.function("simulator", "default_evaluator")
+        epos = ev_fn.params.index("start_index") if "start_index" in ev_fn.params else None
+        for c in ast.walk(pe.node):
+            if isinstance(c, ast.Call) and ast.unparse(c.func) == "self.evaluator" and epos is not None:
+                arg = None
+                for k in c.keywords:
+                    if k.arg == "start_index":
+                        arg = k.value
+                if arg is None and epos < len(c.args):
+                    arg = c.args[epos]
+                n7 += 1
+                ctx.check(arg is not None and ast.unparse(arg) == "start_index", "R16.7",
+                          "_get_partial_evaluation passes its row offset on to the evaluator unchanged", c, pe,
+                          "start_index argument is `%s`" % (ast.unparse(arg) if arg is not None else "?"))
+    ctx.floor("R16.7", "row-offset arguments of batch evaluations", n7, 7)
     ctx.floor("R16.1", "window loops", n, 3)
 
 
@@ -457,6 +493,13 @@ def check_stats(ctx):
     for meth in ("_offline_test_bandits", "_online_test_bandits_chunks"):
         fn = prog.method("Simulator", meth)
         for st in ast.walk(fn.node):
+            # canonical form (model.canonicalise): X[name] += new ; a prepend stays `X[name] = new + X[name]`
+            if isinstance(st, ast.AugAssign) and isinstance(st.target, ast.Subscript) and \
+                    isinstance(st.target.slice, ast.Name) and st.target.slice.id == _bandit_name_var(st):
+                n += 1
+                ctx.check(isinstance(st.op, ast.Add), "R16.4", "%s appends new results after the old ones" % meth,
+                          st, fn, "expected `X = X + new`")
+                continue
             if not (isinstance(st, ast.Assign) and len(st.targets) == 1 and isinstance(st.targets[0], ast.Subscript)
                     and isinstance(st.targets[0].slice, ast.Name) and isinstance(st.value, ast.BinOp)):
                 continue
@@ -486,6 +529,7 @@ def check(ctx):
     ctx.rule("R16.2", "one credit per prediction; observed reward iff prediction == decision")
     ctx.rule("R16.3", "split operands/targets paired")
     ctx.rule("R16.4", "statistics origins, record schema, ordered accumulation")
+    ctx.rule("R16.7", "batch evaluations receive and forward the batch's own row offset")
     ctx.rule("R16.6", "producers and consumer of neighbourhood records agree on the 'no observation' value")
     ctx.rule("R16.5", "presence of a neighbourhood statistic is decided on containers, not on the number")
     check_windows(ctx)
